@@ -1289,12 +1289,12 @@ def _mid_options_enum(tier, shard, nshards):
                         for sk in ("complex", "abs", "signed"):
                             if i % nshards == shard:
                                 seed = _mid_seed(tg + ":opt", i)
-                                nf = _hint(80, 1200 if th else 200, tg, "opt-nf", i)
+                                nf = _hint(80, 500 if th else 200, tg, "opt-nf", i)
                                 nfft = 2 * (nf + 1)
                                 yield {"kind": "options", "seed": seed, "dt": _MID_DTS[seed % len(_MID_DTS)], "acc": acc, "zero": zero,
                                        "b": 40 if band == "omit" else band, "omit_band": band == "omit", "speckind": sk,
                                        "npts": _hint(nfft // 2 + 1, nfft, tg, "opt-npts", i), "nfft": nfft,
-                                       "m": None if deft else _hint(20, 800 if th else 120, tg, "opt-m", i),
+                                       "m": None if deft else _hint(20, 300 if th else 120, tg, "opt-m", i),
                                        "tstyle": ["log", "lin", "grid", "shuffled"][i % 4]}
                             i += 1
 
@@ -1302,7 +1302,7 @@ def _mid_options_enum(tier, shard, nshards):
 @enum_clause(CLAUSES, "mid-range-options", _mid_options_enum,
              rule="full cross of Signal / AccSignal x with / without the 0 Hz bin x explicit / default (None) targets x band {omitted, 40, "
                   "17, 62.5} x spectrum handed over as complex / magnitudes / magnitudes with random signs (96 cases; thorough three "
-                  "repetitions with other sizes up to 1 200 x 800), 80..200 Fourier frequencies x 20..120 targets; in every case ALL entry points: "
+                  "repetitions with other sizes up to 500 x 300), 80..200 Fourier frequencies x 20..120 targets; in every case ALL entry points: "
                   "calc_smooth_fa_spectrum (keyword, positional), the deprecated alias, the matrix (keyword / positional) and the "
                   "custom-matrix form, the object through its constructor (smooth_fa_freqs=, smooth_freq_range=, both), both setters, "
                   "set_smooth_fa_frequecies_by_range, gen_smooth_fa_spectrum (positional / keyword, with / without frequencies) and "
@@ -1428,7 +1428,7 @@ def _mid_history_enum(tier, shard, nshards):
                   "gen_smooth_fa_spectrum(other targets of the same length, band=b) -> read -> generate_smooth_fa_spectrum(band=b) again "
                   "-> read -> targets of another length -> read (band back to 40) -> reset_values (another record of the same length; "
                   "the spectrum falls back to the default padding) -> read (same targets, same band) -> fresh object -> "
-                  "set_smooth_fa_frequecies_by_range -> read -> bandwidth limits",
+                  "set_smooth_fa_frequecies_by_range -> read -> smooth_freq_points = 3m/4 (deprecated setter) -> read -> bandwidth limits",
              oracle="every read against the float64 evaluation of all targets + a long-double sample, for the spectrum, targets and band "
                     "in force at that moment; history object vs fresh object",
              exhaustive_note="all listed products", quick_shards=4)
@@ -1482,4 +1482,10 @@ def mid_range_history(case, ctx):
     ctx.check(t5.shape == (m,) and abs(t5[0] - lo) <= 1e-11 * lo and abs(t5[-1] - hi_) <= 1e-11 * hi_ and (m == 1 or bool(np.all(np.diff(t5) > 0))),
               "set_smooth_fa_frequecies_by_range: not %d ascending points on [%r, %r]" % (m, lo, hi_))
     read(sig, f2, s2, t5, 40, "after set_smooth_fa_frequecies_by_range")
+    m6 = max(2, (3 * m) // 4)
+    ctx.lib(setattr, sig, "smooth_freq_points", m6)  # deprecated setter: m6 points on the range in force
+    t6 = np.array(ctx.lib(lambda: sig.smooth_fa_freqs), dtype=float)
+    ctx.check(t6.shape == (m6,) and abs(t6[0] - lo) <= 1e-11 * lo and abs(t6[-1] - hi_) <= 1e-11 * hi_ and bool(np.all(np.diff(t6) > 0)),
+              "smooth_freq_points = %d: not %d ascending points on [%r, %r]" % (m6, m6, lo, hi_))
+    read(sig, f2, s2, t6, 40, "after smooth_freq_points = %d" % m6)
     _mid_bandwidth(ctx, sig, key)
